@@ -155,6 +155,12 @@ def run(chk):
         boundary.append((["A" * k + "G", "C" * k + "G", "AAG"], k))
         boundary.append((["A" * k, "", "C" * k], k))
         boundary.append((["ACD" * k, "CDA" * k], k))
+    # small lists in which EVERY sequence shares a prefix and a suffix, and the shared parts overlap on the shortest one
+    # (an insertion / deletion inside a run of one letter or inside a tandem repeat)
+    for xs in (["CASSF", "CASSSF"], ["CASF", "CASGSF", "CASSF"], ["AAA", "AA"], ["ABAB", "ABABAB"], ["CAF", "CAAF", "CAAAF"],
+               ["CASSLGF", "CASSLGLGF", "CASSLGGF"], ["CC", "C", "CCC"]):
+        for k in (1, 2):
+            add("shared-affixes", [x.replace("B", "D") for x in xs], k, comp=rng.choice([1, 2]))
     for xs, k in boundary:
         for comp in (1, 2, 5):
             add("boundary", xs, k, comp=comp, engines=("kdtree",) if k > 2 else ("hash_based", "kdtree"))
